@@ -6,13 +6,32 @@ props = [json.loads(l) for l in open(os.path.join(ROOT, "properties.jsonl"))]
 ids = [p["id"] for p in props]
 
 # id -> (technique, level text, level note, design ref)
+SVM = "trusts the harness: native mini-SVM (loader serialisation, CPI privilege and post-instruction account rules re-implemented from the runtime's rules), vendored host shims of pinocchio/solana-invoke/solana-cpi/anchor-lang/solana-msg (host branches only, diff checked at set-up), real spl-token/token-2022 processors; native build of the same sources (overflow-checks off), not the SBF binary; histories are sampled"
 CHECKS = {
- "C02": ("runtime oracle on compute_swap: exact-rational reference monitor over randomized hostile inputs + in-situ swap-step hook records",
+ "C01": ("runtime monitoring of the real instruction path: exact claim-vs-vault invariant after every instruction + differential drain on cloned state + trader-segment conservation monitor",
+         "Seeded hostile histories (liquidity changes, swaps in both modes/directions with and without limits, fee updates, collections, setters, clock) are executed through the program's real entrypoint in a native mini-SVM. After every successful instruction an exact big-integer oracle compares each vault with the sum of all claims decoded from the bank; at checkpoints the whole pool is drained on a clone in random order and every step must succeed; consecutive swaps of one signer never net a gain. Exploration: held on the executions observed.",
+         SVM, "DESIGN.md#c01"),
+ "C02": ("runtime oracle on compute_swap: exact-rational reference monitor over randomized hostile inputs",
          "Every successful result of the real compute_swap on millions of generated inputs (all liquidity bit-lengths, boundary prices, segment-cost +-1 amounts) is compared with an exact big-integer model of the curve, the safe-side price rounding, budget consumption and the fee formula. Exploration: a sample of an astronomically large input space, biased to the boundaries the code branches on.",
          "trusts num-bigint and the harness oracle; native build (overflow-checks off) of the same sources, not the SBF binary; errors are unconstrained", "DESIGN.md#c02"),
+ "C03": ("runtime monitoring of every executed swap + differential re-execution on cloned state with thresholds x-1/x/x+1",
+         "Every swap of the history workload (both token programs, v1/v2, all limit classes) is judged on observed balance deltas and pool prices; a third of the successful swaps are re-executed on clones of the pre-state with the slippage threshold one below, at and one above the realised amount, and only the permitted ones may succeed, byte-identically.",
+         SVM, "DESIGN.md#c03"),
+ "C05": ("invariant monitor over decoded on-chain state after every instruction of hostile histories",
+         "After every successful instruction of seeded histories the pool's liquidity, every tick's net/gross/initialized flag in every tick array (both encodings, harness-owned decoders) are recomputed from the Position accounts found by scanning the bank and compared.",
+         SVM, "DESIGN.md#c05"),
+ "C06": ("trace monitor: per-step swap records (verif hook) re-priced by an independent oracle and reconciled with balances, pool bookkeeping and the emitted event",
+         "For every successful swap the hook's per-step records are checked against the fee formula and summed; the sums must equal what left the trader, what entered/left the vaults, the growth of protocol fees owed, the LP fee growth (per-step liquidity) and the Traded event; protocol fee collections must pay exactly the owed amounts and reset them.",
+         SVM + "; per-step amounts are read from the hook inside the swap loop", "DESIGN.md#c06"),
+ "C07": ("shadow-ledger monitor in exact arithmetic, independent of the program's accumulators, settled at every position update",
+         "An exact ledger credits each position found in the bank with lp_fee*L_i/L_step for every in-range swap step; at every instruction that settles a position the credited fees must not exceed the ledger and may fall short only by the derived rounding bound. Fee accumulators are seeded anywhere in u128 (incl. just below wrap-around) on empty pools.",
+         SVM + "; state seeding of fee_growth_global only on pools without positions or initialised ticks", "DESIGN.md#c07"),
  "C09": ("complete enumeration of all ticks + boundary prices, random interior sample, exact integer oracle",
          "The forward map is enumerated over all 887273 ticks (monotone, endpoints, per-step ratio within 2^-32 by exact integer inequality); the inverse is checked at every tick boundary, one unit either side, and on a dense random interior sample against a binary search in the forward table.",
          "interior prices are sampled; native build of the same sources", "DESIGN.md#c09"),
+ "C13": ("exhaustive transition enumeration over a boundary slot set + random sequences, four implementations against an abstract model and a harness-owned decoder",
+         "Every subset of the boundary slots {0,1,62,63,64,65,86,87} x every single update x the full query set is executed on Anchor fixed, Anchor dynamic, Pinocchio fixed and Pinocchio dynamic tick arrays and compared with an abstract slot map; the dynamic encoding is re-decoded by the harness after every update (bitmap, record sizes, used length, Anchor bytes == Pinocchio bytes).",
+         "buffers sized like on-chain accounts plus realloc padding; bytes beyond the used length unconstrained; random part sampled", "DESIGN.md#c13"),
 }
 NOT_YET = "check under construction in this session (designed in DESIGN.md section 5); not claimed until it runs silent on the unchanged tree"
 
